@@ -144,7 +144,7 @@ type Case struct {
 	Caps    []string
 	CapsTLS []string
 	HS      string   // ok | wrongname | untrusted | garbage | stall
-	Script  []string // ok | drop | stall | <code> | <code>b
+	Script  []string // ok | drop | stall | <code> | <code>b (base64 text) | <code>e (empty text)
 	Msgs    []int    // recipients per message
 }
 
@@ -224,6 +224,10 @@ func decision(s string) smtpx.Decision {
 		n, _ := strconv.Atoi(s[:len(s)-1])
 		return smtpx.Reply(n, B64Text)
 	}
+	if strings.HasSuffix(s, "e") {
+		n, _ := strconv.Atoi(s[:len(s)-1])
+		return smtpx.Reply(n, smtpx.EmptyChallenge) // "334 " (an empty challenge; AUTH exchanges only)
+	}
 	n, _ := strconv.Atoi(s)
 	return smtpx.Reply(n, "")
 }
@@ -278,21 +282,22 @@ func (t *tapConn) Got() []byte {
 // observations
 
 type Obs struct {
-	Results  []string // result class per public call
-	Phase    string   // das: dial | send | close | ""
-	Err      string   // text of the first error (for reports)
-	Opened   bool     // the dial function handed a connection to the client
-	Closed   bool
-	Closes   int
-	Arm      string // per cleartext read A/U, then "|" and the summary of the reads below TLS
-	Srv      string
-	LastVerb string
-	Ended    bool // the server side ended without being forced (the client closed, or the server closed itself)
-	Hung     bool // the watchdog had to tear the case down
-	Elapsed  time.Duration
-	Clear    []byte // mem: bytes the client wrote before its first TLS record; tcp: first raw bytes the server read
-	AllTLS   bool   // tcp: the raw byte stream starts with a TLS handshake record
-	Unarmed  int    // number of blocking reads made without a deadline
+	Results   []string // result class per public call
+	Phase     string   // das: dial | send | close | ""
+	Err       string   // text of the first error (for reports)
+	Opened    bool     // the dial function handed a connection to the client
+	Closed    bool
+	Closes    int
+	Arm       string // per cleartext read A/U, then "|" and the summary of the reads below TLS
+	Srv       string
+	LastVerb  string
+	Positions int  // number of script decisions the server consumed (command positions incl. AUTH steps)
+	Ended     bool // the server side ended without being forced (the client closed, or the server closed itself)
+	Hung      bool // the watchdog had to tear the case down
+	Elapsed   time.Duration
+	Clear     []byte // mem: bytes the client wrote before its first TLS record; tcp: first raw bytes the server read
+	AllTLS    bool   // tcp: the raw byte stream starts with a TLS handshake record
+	Unarmed   int    // number of blocking reads made without a deadline
 }
 
 // Observable renders exactly what the model driver prints for the case.
@@ -421,6 +426,7 @@ func Run(c Case, p *PKI, timeout time.Duration) (Obs, error) {
 		script[i] = decision(s)
 	}
 	srv := smtpx.NewServer(c.Caps, script)
+	srv.StepAuth = true // one decision per client line of an AUTH exchange (the model's server semantics)
 	srv.CapsAfterTLS = append([]string{}, c.CapsTLS...)
 	release := make(chan struct{})
 	var rawMu sync.Mutex
@@ -665,6 +671,7 @@ func Run(c Case, p *PKI, timeout time.Duration) (Obs, error) {
 	// the client (and with it the net.Conn of the stock dialer) must stay reachable until here: a garbage-collected
 	// *net.TCPConn is closed by its finalizer, which would hide a leaked connection
 	runtime.KeepAlive(client)
+	o.Positions = srv.Consumed()
 	tr, _ := srv.Snapshot()
 	var sb []string
 	for _, e := range tr {
